@@ -15,6 +15,24 @@ PROPS = {
                 "same key and at least one snapshot was downloaded; distinct = distinct SHA-256 of the full event log",
         "assumptions": FLEET_ASSUME,
     },
+    "C03": {
+        "level": "exploration",
+        "profiles": [{"name": "fleet-appsafe", "weight": 1}],
+        "rule": "each case is one seeded run of 2-3 real instances in which application commits are placed by the scheduler at the yield "
+                "points of the sync loop, biased to the windows between the end of an LMDB transaction and the following env.Info(), "
+                "before the change check, before SendOnce and inside the read-only dump; every Lightning Stream transaction is compared "
+                "with the state before it; non-trivial = at least one LS transaction was checked and the application committed; "
+                "distinct = distinct SHA-256 of the event log",
+        "assumptions": FLEET_ASSUME,
+    },
+    "C09": {
+        "level": "exploration",
+        "profiles": [{"name": "fleet-publish", "weight": 1}],
+        "rule": "as C03, plus Store failures below the retry budget; the oracle runs whenever a sync loop has completed a full poll "
+                "iteration without local disturbance (idle) and at the end of the fault-free drain; non-trivial = at least one idle or "
+                "end check was evaluated on a run with application commits; distinct = distinct SHA-256 of the event log",
+        "assumptions": FLEET_ASSUME,
+    },
 }
 
 ALL_PROFILES = sorted({p["name"] for c in PROPS.values() for p in c["profiles"]})
